@@ -104,6 +104,60 @@ def _strs_in(node):
     return [v for _, _, v in sorted(found)]
 
 
+def _returned_components(fn):
+    """For a method ending in `return a, b, ...`: per returned component the string literals that build it, in evaluation
+    order.  Local names are resolved through their (single) assignment, tuple assignments element-wise, calls of nested
+    helper functions are inlined (arguments first, then the body); `self._get(...)` look-ups contribute nothing."""
+    env, funcs, ret = {}, {}, None
+    for st in fn.body:
+        if isinstance(st, ast.FunctionDef):
+            funcs[st.name] = st
+        elif isinstance(st, ast.Assign) and len(st.targets) == 1:
+            tgt, val = st.targets[0], st.value
+            if isinstance(tgt, ast.Name):
+                env.setdefault(tgt.id, []).append(val)
+            elif isinstance(tgt, (ast.Tuple, ast.List)) and all(isinstance(e, ast.Name) for e in tgt.elts):
+                if isinstance(val, (ast.Tuple, ast.List)) and len(val.elts) == len(tgt.elts):
+                    for e, v in zip(tgt.elts, val.elts):
+                        env.setdefault(e.id, []).append(v)
+                else:
+                    for e in tgt.elts:
+                        env.setdefault(e.id, []).append(val)
+        elif isinstance(st, ast.Return):
+            ret = st.value
+    if not isinstance(ret, ast.Tuple):
+        raise ExtractError('%s does not end in `return a, b, ...`' % fn.name)
+    if any(len(v) != 1 for v in env.values()):
+        raise ExtractError('%s re-assigns a local name' % fn.name)
+
+    def lits(node, seen):
+        if isinstance(node, ast.Constant):
+            return [node.value] if isinstance(node.value, str) else []
+        if isinstance(node, ast.Call) and isinstance(node.func, ast.Attribute) and node.func.attr == '_get':
+            return []
+        if isinstance(node, ast.Call) and isinstance(node.func, ast.Name) and node.func.id in funcs:
+            if node.func.id in seen:
+                raise ExtractError('recursive helper %s' % node.func.id)
+            out = []
+            for a in list(node.args) + [k.value for k in node.keywords]:
+                out += lits(a, seen)
+            f = funcs[node.func.id]
+            body = f.body[1:] if (f.body and isinstance(f.body[0], ast.Expr) and isinstance(f.body[0].value, ast.Constant)) else f.body
+            for st in body:
+                out += lits(st, seen | {node.func.id})
+            return out
+        if isinstance(node, ast.Name):
+            if node.id in env and node.id not in seen:
+                return lits(env[node.id][0], seen | {node.id})
+            return []
+        out = []
+        for ch in ast.iter_child_nodes(node):
+            out += lits(ch, seen)
+        return out
+
+    return [lits(e, frozenset()) for e in ret.elts]
+
+
 def generate(repo):
     out = [HEADER % 'chempy/printing/*.py, chempy/chemistry.py, chempy/util/parsing.py, chempy/reactionsystem.py',
            'namespace ChemModel.Gen.Printing\n']
@@ -154,20 +208,26 @@ def generate(repo):
     for k in ('Reaction_param_separator', 'Reaction_coeff_space', 'Reaction_around_arrow'):
         if k in st:
             raise ExtractError('StrPrinter overrides %s' % k)
-    parts = _strs_in(_method(sp, '_Reaction_parts'))
-    # settings keys are string literals too: keep those that are not identifiers
-    seps = [s for s in parts if not (s.replace('_', '').replace('%', '').isalnum() and ' ' not in s)]
-    want_shape = ['', ' + ', ' + ( ', ' + ', ')', ' + ', ' + ( ', ' + ', ')']
-    if len(seps) != len(want_shape) or seps[0] != '':
-        raise ExtractError('_Reaction_parts: unexpected string literals %r' % (seps,))
-    emit('termJoin', seps[1], 'StrPrinter._Reaction_parts: joiner of the active reactant terms')
-    emit('inactOpen', seps[2], 'StrPrinter._Reaction_parts: opening of the inactive group (reactant side)')
-    emit('inactJoin', seps[3])
-    emit('inactClose', seps[4])
-    emit('termJoinProd', seps[5], 'the same four literals on the product side')
-    emit('inactOpenProd', seps[6])
-    emit('inactJoinProd', seps[7])
-    emit('inactCloseProd', seps[8])
+    # `_Reaction_parts` returns (r_str, ir_str, arrow_str, p_str, ip_str).  Each component is resolved through the
+    # function's local assignments and nested helper functions (inlined), and the string literals that build it are read
+    # in evaluation order; settings look-ups (`self._get("key")`) are not literals of the output.
+    comps = _returned_components(_method(sp, '_Reaction_parts'))
+    if len(comps) != 5:
+        raise ExtractError('_Reaction_parts does not return a 5-tuple')
+    r_l, ir_l, a_l, p_l, ip_l = comps
+    if '' not in ir_l or '' not in ip_l:
+        raise ExtractError('_Reaction_parts: the inactive part has no empty alternative')
+    r_l, ir_l, a_l, p_l, ip_l = [[x for x in l if x != ''] for l in comps]
+    if len(r_l) != 1 or len(p_l) != 1 or len(ir_l) != 3 or len(ip_l) != 3 or a_l:
+        raise ExtractError('_Reaction_parts: unexpected string literals %r' % (comps,))
+    emit('termJoin', r_l[0], 'StrPrinter._Reaction_parts: joiner of the active reactant terms')
+    emit('inactOpen', ir_l[0], 'StrPrinter._Reaction_parts: opening of the inactive group (reactant side)')
+    emit('inactJoin', ir_l[1])
+    emit('inactClose', ir_l[2])
+    emit('termJoinProd', p_l[0], 'the same four literals on the product side')
+    emit('inactOpenProd', ip_l[0])
+    emit('inactJoinProd', ip_l[1])
+    emit('inactCloseProd', ip_l[2])
     rs = _strs_in(_method(sp, '_Reaction_str'))
     if rs[:1] != ['{}{}%s{}%s{}{}']:
         raise ExtractError('_Reaction_str template changed: %r' % rs[:1])
